@@ -435,9 +435,14 @@ pub fn run(ctx: &Ctx, rep: &mut Report) {
     let d = directed(ctx);
     run_list(rep, "directed", &d, |c, st| check(&root, c, st));
     seed_sweep(ctx, rep);
+    let sib = crate::props::c02::load_sib_corpus(&ctx.root);
+    run_list(rep, "sample_in_ball_extremes", &sib, crate::props::c02::check_sib);
     run_generated(ctx, rep, "sequences", ctx.n(24_000, 400_000), || strategy(max_len, max_msg), |c, st| check(&root, c, st));
 }
 
 pub fn replay(ctx: &Ctx, sub: &str, case: &Value) -> Option<CheckResult> {
+    if sub == "sample_in_ball_extremes" {
+        return Some(crate::props::c02::check_sib(&from_case(case), &mut Stats::default()));
+    }
     matches!(sub, "sequences" | "directed").then(|| check(&ctx.root, &from_case::<Case>(case), &mut Stats::default()))
 }
